@@ -55,6 +55,7 @@ def run(ctx):
     ctx.do(SI.rule_fk1, [SI.FSA])
     ctx.do(SI.rule_bfs1)
     ctx.do(SI.rule_dv1)
+    ctx.do(SI.rule_bfs2)
     ctx.do(SI.rule_acc1, [SI.FSA])
     ctx.do(u1, ENTRIES, min_functions=12)
     ctx.r.assume("language equality for multiples, relabelling, pruning and "
